@@ -77,6 +77,9 @@ func newInterpreter(p *Program, sh *Shared) *interpreter {
 		stepBudget: sh.cfg.StepBudget,
 		funcsSeen:  map[*ssa.Function]int64{},
 		pure:       map[*ssa.Function]bool{},
+		noSummary:  map[*ssa.Function]bool{},
+		setupCache: map[string]value{},
+		fnInfos:    map[*ssa.Function]*fnInfo{},
 		trace:      sh.cfg.Trace,
 	}
 	if rt := p.Prog.ImportedPackage("runtime"); rt != nil {
@@ -125,6 +128,7 @@ func runPath(i *interpreter, ex *explorer, sh *Shared, entry *ssa.Function, it *
 	i.syncMaps = map[*value]*omap{}
 	i.strCells = map[uintptr]*strCell{}
 	i.strCellOf = map[*value]string{}
+	i.noSummary = map[*ssa.Function]bool{}
 	i.lockDepth = 0
 	i.clock = 0
 	i.fs = newMemFS()
